@@ -1,7 +1,7 @@
 ----------------------------- MODULE HistoryTrace -----------------------------
 (* Total monitor for replayed histories.  A trace is                                                                  *)
-(*   [id, kind ("samples" | "data" | "prior"),                                                                        *)
-(*    events: sequence of [op, cls ("read" | "mut" | "deriv"),                                                        *)
+(*   [id, kind ("samples" | "data" | "prior" | "sampler"),                                                            *)
+(*    events: sequence of [op, cls ("read" | "mut" | "deriv" | "draw"),                                               *)
 (*                         content  (the calls the driver replayed on the fresh twin before this read; <<>> otherwise)  *)
 (*                         same     (read only: the used object's answer equals the fresh twin's, exceptions included)  *)
 (*                         raised   (a mut / deriv call raised on the used object)]]                                  *)
@@ -19,11 +19,11 @@ Add(fs, cl, pos) == IF cl = "" \/ fs # <<>> THEN fs ELSE <<<<cl, pos>>>>       \
 Clause(e) ==
   IF K \notin Kinds THEN "H.UnknownKind"
   ELSE IF ClassOf(K, e.op) = "unknown" \/ ClassOf(K, e.op) # e.cls THEN "H.CallNotInTheAlphabet"
-  ELSE IF e.cls = "read" THEN
+  ELSE IF e.cls \in {"read", "draw"} THEN
        (IF e.content # ContentOf(K, seen) THEN "H.TwinWasNotBuiltFromTheContent"
         ELSE IF ~e.same THEN Owner(K, e.op) \o ".AnswerDependsOnlyOnTheContent"
         ELSE "")
-  ELSE IF e.raised THEN (IF K = "data" THEN "C15" ELSE IF K = "prior" THEN "C09" ELSE "C17") \o ".ContentChangingCallRaises"
+  ELSE IF e.raised THEN (IF K = "data" THEN "C15" ELSE IF K = "prior" THEN "C09" ELSE IF K = "sampler" THEN "C10" ELSE "C17") \o ".ContentChangingCallRaises"
   ELSE ""
 
 Init == tid \in 1..Len(Tr) /\ l = 1 /\ seen = <<>> /\ fails = <<>>
